@@ -555,7 +555,12 @@ func execD(e *lp.Exec, rc *recvCase, lg *capLogger, f []string) {
 	if d := time.Since(t0); d > 5*time.Second {
 		e.Oracle("c15-limit", "class=slow Parse took %v on %d bytes", d, len(seg))
 	}
-	ec := errCode(err)
+	var ec int
+	if err != nil && ep.parser != nil && ep.ws == nil {
+		ec = 13 // the HTTP client parser refused the response (before any hand-over): one class, C06-C08 look inside
+	} else {
+		ec = errCode(err)
+	}
 	cache, ml := ep.cacheLen(), ep.msgLen()
 	e.P("> %s %s infl=%s keys=%s", f[0], f[1], ep.inflAnn(), keysOf(ep.writes))
 	if ec != 0 {
